@@ -8,6 +8,24 @@ COMMON_ASSUME = [
 from extras import pod_features
 
 PROPS = {
+    "C01": {
+        "lean_module": "SplProofs.C01",
+        "streams": ["C01"],
+        "rule": "stream tlvhist: histories from a zeroed buffer (sizes 0..300, weighted to exact fit and +-1..12 around it) over an adversarial 8-tag palette and value sizes 0/1/3/5(non-zero default)/8/32 and variable lengths: alloc +-repetition, init_value, realloc to 0 / same / exact fit / fit+1 / > u32::MAX, byte and typed writes through the mutable views, var-len pack (streaming packer), alloc_and_pack, lookups, get_discriminators, reopen through the three views; the generator steers towards failing operations at every state; after every op the raw buffer, returned slice range (pointer arithmetic) and repetition number are compared with the model and with a shadow Vec<(tag, Vec<u8>)> + independent canonical encoder;  non-trivial = history with >= 2 successful mutations on >= 2 entries and a resize/write that is not on the last entry",
+        "assumptions": COMMON_ASSUME + ["type tags are 8-byte non-zero discriminators", "typed reads/writes use align-1 Pod types"],
+    },
+    "C03": {
+        "lean_module": "SplProofs.C03",
+        "streams": ["C03"],
+        "rule": "stream tlvhist: histories from a zeroed buffer (sizes 0..300, weighted to exact fit and +-1..12 around it) over an adversarial 8-tag palette and value sizes 0/1/3/5(non-zero default)/8/32 and variable lengths: alloc +-repetition, init_value, realloc to 0 / same / exact fit / fit+1 / > u32::MAX, byte and typed writes through the mutable views, var-len pack (streaming packer), alloc_and_pack, lookups, get_discriminators, reopen through the three views; the generator steers towards failing operations at every state; after every op the raw buffer, returned slice range (pointer arithmetic) and repetition number are compared with the model and with a shadow Vec<(tag, Vec<u8>)> + independent canonical encoder;  raw bytes compared byte-for-byte with an independent encoder of the logical entry list after every step; non-trivial as C01",
+        "assumptions": COMMON_ASSUME + ["type tags are 8-byte non-zero discriminators"],
+    },
+    "C04": {
+        "lean_module": "SplProofs.C04",
+        "streams": ["C04"],
+        "rule": "stream tlvhist: histories from a zeroed buffer (sizes 0..300, weighted to exact fit and +-1..12 around it) over an adversarial 8-tag palette and value sizes 0/1/3/5(non-zero default)/8/32 and variable lengths: alloc +-repetition, init_value, realloc to 0 / same / exact fit / fit+1 / > u32::MAX, byte and typed writes through the mutable views, var-len pack (streaming packer), alloc_and_pack, lookups, get_discriminators, reopen through the three views; the generator steers towards failing operations at every state; after every op the raw buffer, returned slice range (pointer arithmetic) and repetition number are compared with the model and with a shadow Vec<(tag, Vec<u8>)> + independent canonical encoder;  plus histories that start from openable but non-canonical buffers (entries, terminator, garbage); non-trivial = history that reaches a state with >= 1 entry and executes >= 1 failing mutation there",
+        "assumptions": COMMON_ASSUME + ["type tags are 8-byte non-zero discriminators"],
+    },
     "C02": {
         "lean_module": "SplProofs.C02",
         "streams": ["C02"],
